@@ -130,7 +130,7 @@ impl Recognizer {
       }
       DecisionTableOrientation::RuleAsColumn => {
         self.plane.remove_last_row();
-        self.plane.pivot();
+        self.plane.pivot()?;
         self.recognize_horizontal_table()?;
       }
       DecisionTableOrientation::CrossTable => {
